@@ -313,7 +313,21 @@ def bare_lines(cell):
     return {'v': out[:3], 'n': 2 * len(temps) + 1, 'nt': cell}
 
 
-PARTS = {'bare_lines': bare_lines, 'isa': isa_cell, 'station': station, 'grid': grid, 'reject': reject, 'vacuum': vacuum, 'history': history}
+def sound(cell):
+    """the three public speed-of-sound functions (by deg F in fps, by deg C and by K in m/s) are the ISA speed of sound at that temperature"""
+    import math
+    import py_ballisticcalc as pb
+    tc = float(cell)
+    T = tc + 273.15
+    a = math.sqrt(1.4 * 287.05287 * T)
+    out = []
+    for name, v in (('machF', pb.Atmo.machF(tc * 9 / 5 + 32) * FT), ('machC', pb.Atmo.machC(tc)), ('machK', pb.Atmo.machK(T))):
+        if not abs(v - a) / a <= 1e-4:
+            out.append({'msg': f'Atmo.{name} at {tc} C gives {v!r} m/s, ISA speed of sound is {a!r} (1e-4 allowed)', 'key': None})
+    return {'v': out, 'n': 3, 'nt': cell}
+
+
+PARTS = {'sound': sound, 'bare_lines': bare_lines, 'isa': isa_cell, 'station': station, 'grid': grid, 'reject': reject, 'vacuum': vacuum, 'history': history}
 OFFS = [0, 1, -1, 29.999, -29.999, 30, -30, 30.001, -30.001]
 
 
@@ -339,4 +353,4 @@ def plan(tier):
     bl = [[p_, h_] for p_ in (25.0, 29.92, 31.0) for h_ in (0, 0.5, 80)]
     pref_sets = [{'temperature': 'Celsius'}, {'temperature': 'Kelvin', 'pressure': 'hPa', 'distance': 'Meter'}, {'temperature': 'Rankin', 'pressure': 'PSI', 'distance': 'Foot', 'velocity': 'MPS'}]
     alts = alts + [[h_, p_] for h_ in range(-1000, 36001, 1000 if tier == 'quick' else 250) for p_ in pref_sets]
-    return [('bare_lines', bl), ('isa', alts), ('station', st), ('grid', gr), ('reject', [-1, -0.01, 100.01, 1e9, -1e-9, 101]), ('vacuum', vac), ('history', hs)]
+    return [('sound', list(range(-60, 61, 5 if tier == 'quick' else 1))), ('bare_lines', bl), ('isa', alts), ('station', st), ('grid', gr), ('reject', [-1, -0.01, 100.01, 1e9, -1e-9, 101]), ('vacuum', vac), ('history', hs)]
